@@ -133,6 +133,7 @@ def c26Step (st : Unit) (op impl : String) : Unit × String × String :=
   | none =>
     match fields op with
     | "pend" :: args => if args.length == 7 then (st, "-", judgePend impl) else (st, "bad-op", "ok")
+    | "e2e" :: args => if args.length == 5 then (st, "-", judgeE2E impl) else (st, "bad-op", "ok")
     | _ => (st, "bad-op", "ok")
 
 def main : IO Unit := Drv.main { init := (), step := c26Step }
